@@ -247,7 +247,21 @@ func runC02(c *Ctx) {
 				c.undecided(key, instrPos(in), "cannot decode the select's case blocks")
 				return
 			}
+			pollCalls := map[ssa.Instruction]*ssa.Call{}
 			isRecheck := func(x ssa.Instruction) bool {
+				// a reply poll helper handed this very channel
+				if cl, ok := x.(*ssa.Call); ok {
+					if sum := replyPollSummary(cl.Call.StaticCallee()); sum != nil && sum.pollsLast && sum.chanIdx < len(cl.Call.Args) {
+						a := cl.Call.Args[sum.chanIdx]
+						if ct, isCT := a.(*ssa.ChangeType); isCT {
+							a = ct.X
+						}
+						if a == replyCh {
+							pollCalls[x] = cl
+							return true
+						}
+					}
+				}
 				s2, ok := x.(*ssa.Select)
 				if !ok || s2.Blocking {
 					return false
@@ -268,6 +282,22 @@ func runC02(c *Ctx) {
 			good := true
 			eachInstr(f, func(x ssa.Instruction) {
 				if !isRecheck(x) || !cases[closeIdx].Body.Dominates(x.Block()) {
+					return
+				}
+				if cl := pollCalls[x]; cl != nil {
+					// the helper's reply is returned when it is non-nil
+					handed := false
+					for _, r := range returnsOf(f) {
+						rv := returnedValues(r)
+						if len(rv) > 0 {
+							if hc, _ := pollHelperCall(rv[0]); hc == cl {
+								handed = true
+							}
+						}
+					}
+					if !handed {
+						good = false
+					}
 					return
 				}
 				s2 := x.(*ssa.Select)
